@@ -58,6 +58,11 @@ def desugar(raw, max_rounds=6):
                 f = t.get("func", {})
                 if not (f.get("k") == "const" and "fn" in f):
                     continue
+                if f["fn"]["path"] in ITER_CONSUMERS:
+                    if _rewrite_iter(b, bi, t, ITER_CONSUMERS[f["fn"]["path"]], by_path):
+                        n += 1
+                        changed = True
+                    continue
                 spec = SPECS.get(f["fn"]["path"])
                 if spec is None:
                     continue
@@ -196,6 +201,68 @@ def _apply(B_, body, by_path, bb, fop, arg_ops, dest_local, dest_ty, unwind):
         B_.assign(bb, P(lo + 2 + i, callee["locals"][2 + i]["ty"]), {"rv": "use", "op": a})
     B_.term(bb, {"t": "goto", "target": bo, "inlined": cpath})
     return cont
+
+
+ITER_CONSUMERS = {"std::iter::Iterator::for_each": "for_each", "std::iter::Iterator::try_for_each": "try_for_each"}
+
+
+def _rewrite_iter(body, bi, t, kind, by_path):
+    """iter.for_each(f) / iter.try_for_each(f) with a statically known f: the loop they are defined as —
+    `while let Some(x) = iter.next() { f(x) }`, for try_for_each leaving with the first Err"""
+    args = t["args"]
+    if len(args) != 2 or t["dest"]["p"]:
+        return False
+    if _fn_item(args[1]) is None:
+        cl = _closure_of(body, args[1])
+        if cl is None or len(by_path.get(cl[1], [])) != 1:
+            return False
+    dl, dty = t["dest"]["l"], t["dest"]["ty"]
+    if kind == "try_for_each" and not dty.startswith(RESULT + "<(), "):
+        return False
+    span = t["span"]
+    Bd = B(body, span)
+    target, unwind = t["target"], t.get("unwind")
+    it = args[0]
+    ity = it.get("ty") or it.get("pl", {}).get("ty", "?")
+    if it.get("k") in ("move", "copy") and not it["pl"]["p"]:
+        ity = body["locals"][it["pl"]["l"]]["ty"]
+    il = Bd.local(ity)
+    Bd.assign(bi, P(il, ity), {"rv": "use", "op": it})
+    head, nx, some, none, unreach = Bd.block(), Bd.block(), Bd.block(), Bd.block(), Bd.block()
+    Bd.term(bi, {"t": "goto", "target": head})
+    ref = Bd.local("&mut " + ity)
+    Bd.assign(head, P(ref, "&mut " + ity), {"rv": "ref", "bk": "mut", "pl": P(il, ity)})
+    item = Bd.local(OPTION + "<?>")
+    nextfn = {"k": "const", "ty": "?", "fn": {"path": "std::iter::Iterator::next", "inst": f"<{ity} as std::iter::Iterator>::next", "args": [ity], "local": False, "trait": "std::iter::Iterator"}}
+    Bd.term(head, {"t": "call", "func": nextfn, "args": [mv(ref, "&mut " + ity)], "dest": P(item, OPTION + "<?>"), "target": nx, "unwind": unwind})
+    d = Bd.local("isize")
+    Bd.assign(nx, P(d, "isize"), {"rv": "discr", "pl": P(item, OPTION + "<?>")})
+    Bd.term(nx, {"t": "switch", "discr": mv(d, "isize"), "discr_ty": "isize", "arms": [["0", none], ["1", some]], "otherwise": unreach, "desugared": True})
+    pay = Bd.local("?")
+    Bd.assign(some, P(pay), {"rv": "use", "op": {"k": "move", "pl": payload_place(item, OPTION, "Some")}})
+    if kind == "for_each":
+        r = Bd.local("()")
+        cont = _apply(Bd, body, by_path, some, args[1], [mv(pay)], r, "()", unwind)
+        if cont is None:
+            return False
+        Bd.term(cont, {"t": "goto", "target": head})
+        Bd.assign(none, P(dl, dty), {"rv": "agg", "ak": "tuple", "ops": []})
+    else:
+        r = Bd.local(dty)
+        cont = _apply(Bd, body, by_path, some, args[1], [mv(pay)], r, dty, unwind)
+        if cont is None:
+            return False
+        d2 = Bd.local("isize")
+        brk = Bd.block()
+        Bd.assign(cont, P(d2, "isize"), {"rv": "discr", "pl": P(r, dty)})
+        Bd.term(cont, {"t": "switch", "discr": mv(d2, "isize"), "discr_ty": "isize", "arms": [["0", head], ["1", brk]], "otherwise": unreach, "desugared": True})
+        Bd.assign(brk, P(dl, dty), {"rv": "use", "op": mv(r, dty)})
+        Bd.term(brk, {"t": "goto", "target": target})
+        unit = Bd.local("()")
+        Bd.assign(none, P(unit, "()"), {"rv": "agg", "ak": "tuple", "ops": []})
+        Bd.assign(none, P(dl, dty), agg(RESULT, "Ok", [mv(unit, "()")]))
+    Bd.term(none, {"t": "goto", "target": target})
+    return True
 
 
 def _rewrite(body, bi, t, spec, by_path):
